@@ -264,6 +264,12 @@ func execPanicX(e *env, op *Op, out *Outcome) {
 		}
 		return
 	}
+	if pt.NestedContained {
+		if res.Panic != "" {
+			fail("user-method-panic-escaped", fmt.Sprintf("a nested panic inside an enclosing user method must be contained by the enclosing printer: %s", res.Panic))
+		}
+		return
+	}
 	if res.Panic != "" {
 		fail("user-method-panic-escaped", fmt.Sprintf("panic in %s method (placement %d) was not contained: %s", pt.Method, pt.K, res.Panic))
 		return
